@@ -339,6 +339,8 @@ def lister_dot_table(p, lst):
                 continue
             if out[0] == "continue":
                 outs.add("skip")
+                if enq:
+                    outs.add("enqueue")     # queued for recursion first, skipped afterwards: still listed again and again
             elif out[0] == "return":
                 outs.add("return")
                 if enq:
@@ -519,6 +521,13 @@ def rule_regex(ctx):
     ctx.ob("C19.REGEX", p.trees["client.py"], f"{n} regular expression(s) examined; detector self-test passed", True)
 
 
+def rule_lock_released(ctx):
+    from .c17 import rule_lock
+    ctx.rule("C19.LOCK", "'never hangs': the process-wide locale lock taken while a listing date is parsed is given back when the parse fails - release in a `finally` or a `with` "
+                         "(shared with C17.LOCK)")
+    ctx.borrow(rule_lock, {"C17.LOCK": "C19.LOCK"})
+
+
 def rule_release(ctx):
     """'...and releases that session's resources': the unconditional cleanup of C10/C12 is a clause of C19 as well"""
     from .c10 import rule_finally
@@ -551,4 +560,4 @@ def rule_defined(ctx):
         ctx.floor_errors.append(f"rule=C19.DEFINED: {n} functions of client.py/common.py analysed (floor 90)")
 
 
-RULES = [rule_funnel, rule_nodrop, rule_srv, rule_eof, rule_dot, rule_release, rule_noswallow, rule_reader_errors, rule_regex, rule_borrowed_r4, rule_defined]
+RULES = [rule_funnel, rule_nodrop, rule_srv, rule_eof, rule_dot, rule_release, rule_noswallow, rule_reader_errors, rule_regex, rule_lock_released, rule_borrowed_r4, rule_defined]
